@@ -46,6 +46,10 @@ CHECKS = {
          "Generated-schedule search on a virtual clock: coincidences (arrival exactly at a tick, during a blocked emission, size flush racing the timer) are generated, not hoped for. Exploration only.",
          "Trusted: virtual loop/clock; busy time measured from the consumer's start/finish log.",
          "DESIGN.md section 4 C08"),
+ "C15": ("Hypothesis rule-based state machine over graph-editing histories (add/connect/disconnect/destroy/drop+gc/emit) against a reference model of topology, liveness and delivery; trace minimisation to a replay file",
+         "Stateful model-based generation: invariants (link consistency, model-equal arrivals at every node, liveness under GC) are checked after every step of every generated history. Exploration only.",
+         "Trusted: the topology/liveness model in props/c15.py; CPython refcounting + gc.collect() as the GC model; zip backlog rule (0..K tuples at an edit, 1..K at an update).",
+         "DESIGN.md section 4 C15"),
 }
 NOT_YET = "check not built yet in this session (the property is decidable with this technique; see DESIGN.md section 4)"
 
